@@ -1853,3 +1853,80 @@ def _c13w(fb, rep):
 
 
 RULES['C13'] = _c13w
+
+
+# ================================================================================================ tenth batch (hash table: seed C19-1)
+def c19e(fb, rep):
+    """R19.21: DataHashTable is an open-addressing table: index() walks a probe chain until it meets the END-OF-CHAIN status (read from index()'s own loop
+    guard, `stat != FREE` today).  Vacating ONE slot with that status cuts every chain that runs through it - names registered later are no longer found -
+    so the end-of-chain status is only ever assigned inside a loop over all slots (clear()), and remove() assigns some other status (the tombstone).
+    R19.22: the fill counter follows the status: a single-slot assignment of the HIT status (the one index() requires for a match) increments m_used, a
+    single-slot assignment of any other status decrements it.
+    R19.23: insertion and lookup walk the same probe sequence: the start slot and the step of add()'s probe loop equal those of index()."""
+    H = {f.short: f for f in fb.funcs.values() if f.nodes and re.match(r'soplex::DataHashTable<', f.name) and f.short in ('add', 'remove', 'index')}
+    if set(H) != {'add', 'remove', 'index'}:
+        raise AnalysisBroken('R19.21: DataHashTable::add/remove/index not found (%s)' % sorted(H))
+    idx = H['index']
+    guard = [re.match(r'\(m_elem\[(\w+)\]\.stat != (\w+)\)$', render(n.kid('cond'))) for n in idx.nodes if n.k == 'WhileStmt' and n.kid('cond') is not None]
+    guard = [m for m in guard if m]
+    hit = [re.search(r'\(m_elem\[\w+\]\.stat == (\w+)\) &&', render(n)) for n in idx.nodes if n.k == 'BinaryOperator' and n.o == '&&']
+    hit = [m for m in hit if m]
+    if len(guard) != 1 or not hit:
+        raise AnalysisBroken('R19.21: the probe loop of DataHashTable::index() (while(m_elem[i].stat != <end>) ... stat == <hit> && item == h) was not recognised')
+    END, HIT = guard[0].group(2), hit[0].group(1)
+    rep.rule('R19.21', 'DataHashTable: the end-of-chain status (%s) is assigned only by a loop over all slots; remove() leaves a tombstone' % END, floor=3)
+    rep.rule('R19.22', 'DataHashTable: a single-slot status assignment is accompanied by the matching change of m_used', floor=2)
+    k = k2 = 0
+    for f in sorted(fb.funcs.values(), key=lambda g: (g.name, g.line)):
+        if not f.nodes or not re.match(r'soplex::DataHashTable<', f.name):
+            continue
+        for n in f.nodes:
+            m = re.match(r'\(m_elem\[(\w+)\]\.stat = (\w+)\)$', render(n)) if n.k == 'BinaryOperator' and n.o == '=' else None
+            if not m:
+                continue
+            k += 1
+            loops = [a for a in list(f.ancestors(n)) if a.k in ('ForStmt', 'WhileStmt') and a.kid('cond') is not None and re.search(r'\b%s < \(?(this->)?m_elem\.size\(\)' % re.escape(m.group(1)), render(a.kid('cond')))]
+            if m.group(2) == END:
+                rep.check(bool(loops), 'R19.21', '%s|stat=%s#%d' % (f.short, END, k), '%s:%d' % (f.file, n.l), 'inside a loop over all slots',
+                          '%s() marks the single slot m_elem[%s] %s, the status at which index() stops probing: every element whose probe chain passes this slot becomes '
+                          'unreachable (has()/number() by name fail for registered names, add() registers a name twice)' % (f.short, m.group(1), END))
+            else:
+                rep.check(True, 'R19.21', '%s|stat=%s#%d' % (f.short, m.group(2), k), '%s:%d' % (f.file, n.l), 'not the end-of-chain status', '')
+            if not loops:
+                k2 += 1
+                want = 'post++|pre++' if m.group(2) == HIT else 'post--|pre--'
+                cnt = [x for x in f.nodes if x.k == 'UnaryOperator' and re.match(want.replace('+', r'\+'), x.o or '') and re.match(r'\(?(this->)?m_used', render(x).replace('++', '').replace('--', ''))]
+                cnt += [x for x in f.nodes if x.k in ('CompoundAssignOperator', 'BinaryOperator') and re.match(r'\(?(this->)?m_used (\+=|-=|= )', render(x))]
+                rep.check(bool(cnt), 'R19.22', '%s|stat=%s#%d' % (f.short, m.group(2), k2), '%s:%d' % (f.file, n.l), 'm_used follows',
+                          '%s() sets a slot to %s and does not %s m_used: index() answers "not found" for everything once the counter reads 0, and the fill factor test of add() '
+                          'no longer sees the load' % (f.short, m.group(2), 'increment' if m.group(2) == HIT else 'decrement'))
+    rm = [n for n in H['remove'].nodes if n.k == 'BinaryOperator' and n.o == '=' and re.match(r'\(m_elem\[\w+\]\.stat = ', render(n))]
+    k += 1
+    rep.check(bool(rm), 'R19.21', 'remove|tombstone', H['remove'].where(), 'a status is assigned', 'remove() no longer changes the status of the slot it vacates')
+    if k < 3 or k2 < 2:
+        raise AnalysisBroken('R19.21/22: only %d status assignments (%d single-slot) found in DataHashTable' % (k, k2))
+
+    rep.rule('R19.23', 'DataHashTable: add() and index() walk the same probe sequence (same start slot, same step)', floor=2)
+
+    def probe(f):
+        start = [render(n.kids[1]) for n in f.nodes if n.k in ('BinaryOperator', 'VarDecl') and re.search(r'm_hashfun\(&\w+\) % ', render(n)) and n.k == 'BinaryOperator' and n.o == '=']
+        start += [m.group(0) for m in [re.search(r'\(\*m_hashfun\(&\w+\) % [^;]*?size\(\)\)', render(n)) for n in f.nodes if n.k == 'BinaryOperator' and n.o == '%'] if m]
+        step = [render(n.kids[1]) for n in f.nodes if n.k == 'BinaryOperator' and n.o == '=' and re.match(r'\((\w+) = \(\(\1 \+ ', render(n))]
+        return (start[0] if start else None), (step[0] if step else None)
+    pa, pi = probe(H['add']), probe(H['index'])
+    if None in pa or None in pi:
+        raise AnalysisBroken('R19.23: probe start/step of add() %s or index() %s not recognised' % (pa, pi))
+    for what, a, b in (('start', pa[0], pi[0]), ('step', pa[1], pi[1])):
+        rep.check(a == b, 'R19.23', 'probe|%s' % what, H['index'].where(), a[:50],
+                  'add() probes with %s `%s`, index() with `%s`: an element that collided on insertion is looked for along a different chain' % (what, a[:60], b[:60]))
+
+
+_c19h = RULES['C19']
+
+
+def _c19i(fb, rep):
+    _c19h(fb, rep)
+    c19e(fb, rep)
+
+
+RULES['C19'] = _c19i
